@@ -363,38 +363,111 @@ def inverse_mirror(ctx: Ctx, fwd, inv):
     res.instance("INVERSE-MIRROR", key, sample={"forward": src(fr), "inverse": src(ir), "S": src(S), "D": src(D), "S'": src(S2), "D'": src(D2)})
     if _canon(S) != _canon(S2) or _canon(D) != _canon(D2):
         ctx.finding("INVERSE-MIRROR", inv, ir, f"{inv.name} moves axis {src(D2)} -> {src(S2)} but {fwd.name} moved {src(S)} -> {src(D)}: the inverse does not undo the forward axis move")
-    # shape bookkeeping: L = list(shape); x = L.pop(S); L.insert(D, x)
-    if not isinstance(L, ast.Name):
-        raise AnalysisError(f"INVERSE-MIRROR {key}: intermediate shape of {inv.name} is not a local list; cannot decide")
-    shape_param = None
-    popped = None
-    pop_idx = ins_idx = ins_val = None
-    order = []
+    # shape bookkeeping, read by a small interpreter of list states over the straight-line body:
+    #   list(shape) = FULL;  x = L.pop(i): L = MINUS(i), x = DIM(i);  L.insert(j, x) / [x] + L /
+    #   [x, *L] / L[:j] + [x] + L[j:]  = MOVED(i, j).  The list handed to reshape must be MOVED(S, D).
+    env = {}
+    where = {}
+
+    def is_pop(v):
+        return isinstance(v, ast.Call) and isinstance(v.func, ast.Attribute) and v.func.attr == "pop" and isinstance(v.func.value, ast.Name) and len(v.args) == 1
+
+    def do_pop(v, node):
+        lst = v.func.value.id
+        st = env.get(lst)
+        if not st or st[0] != "full":
+            raise AnalysisError(f"INVERSE-MIRROR {key}: `{src(v)}` pops from a list that is not a fresh copy of the shape; cannot decide")
+        env[lst] = ("minus", st[1], v.args[0])
+        where[lst] = node
+        return ("dim", st[1], v.args[0], lst)
+
+    def ev(e):
+        if isinstance(e, ast.Name):
+            return env.get(e.id)
+        if isinstance(e, ast.Call) and is_name(e.func, "list") and len(e.args) == 1 and isinstance(e.args[0], ast.Name) and e.args[0].id in inv.all_params:
+            return ("full", e.args[0].id)
+        if isinstance(e, ast.Call) and is_name(e.func, "list") and len(e.args) == 1:
+            return ev(e.args[0])
+        if isinstance(e, ast.Call) and is_name(e.func, "tuple") and len(e.args) == 1:
+            return ev(e.args[0])
+        if isinstance(e, (ast.List, ast.Tuple)):
+            # [x, *L] / [x]
+            if len(e.elts) == 2 and isinstance(e.elts[1], ast.Starred):
+                x, l = ev(e.elts[0]), ev(e.elts[1].value)
+                if x and l and x[0] == "dim" and l[0] == "minus" and x[1] == l[1] and _canon(x[2]) == _canon(l[2]):
+                    return ("moved", l[1], l[2], ast.Constant(0), e)
+            if len(e.elts) == 1:
+                x = ev(e.elts[0])
+                if x and x[0] == "dim":
+                    return ("single",) + x[1:]
+            return None
+        if isinstance(e, ast.BinOp) and isinstance(e.op, ast.Add):
+            parts = []
+            stack = [e]
+            while stack:
+                n = stack.pop()
+                if isinstance(n, ast.BinOp) and isinstance(n.op, ast.Add):
+                    stack.append(n.right)
+                    stack.append(n.left)
+                else:
+                    parts.append(n)
+            vals = [ev(x_) for x_ in parts]
+            if len(parts) == 2 and vals[0] and vals[1] and vals[0][0] == "single" and vals[1][0] == "minus" and vals[0][1] == vals[1][1] and _canon(vals[0][2]) == _canon(vals[1][2]):
+                return ("moved", vals[1][1], vals[1][2], ast.Constant(0), e)
+            if len(parts) == 3 and vals[1] and vals[1][0] == "single":
+                lo, hi = parts[0], parts[2]
+                if isinstance(lo, ast.Subscript) and isinstance(hi, ast.Subscript) and isinstance(lo.slice, ast.Slice) and isinstance(hi.slice, ast.Slice) and lo.slice.lower is None and hi.slice.upper is None and lo.slice.upper is not None and hi.slice.lower is not None and _canon(lo.slice.upper) == _canon(hi.slice.lower):
+                    l1, l2 = ev(lo.value), ev(hi.value)
+                    if l1 and l2 and l1 == l2 and l1[0] == "minus" and l1[1] == vals[1][1] and _canon(l1[2]) == _canon(vals[1][2]):
+                        return ("moved", l1[1], l1[2], lo.slice.upper, e)
+            return None
+        return None
+
     for s in inv.node.body:
-        if isinstance(s, ast.Assign) and len(s.targets) == 1 and is_name(s.targets[0], L.id):
-            v = s.value
-            if isinstance(v, ast.Call) and is_name(v.func, "list") and len(v.args) == 1 and isinstance(v.args[0], ast.Name):
-                shape_param = v.args[0].id
-                order.append("init")
-        if isinstance(s, ast.Assign) and isinstance(s.value, ast.Call) and isinstance(s.value.func, ast.Attribute) and s.value.func.attr == "pop" and is_name(s.value.func.value, L.id) and len(s.targets) == 1 and isinstance(s.targets[0], ast.Name):
-            popped = s.targets[0].id
-            pop_idx = s.value.args[0] if s.value.args else None
-            order.append("pop")
-        if isinstance(s, ast.Expr) and isinstance(s.value, ast.Call) and isinstance(s.value.func, ast.Attribute) and s.value.func.attr == "insert" and is_name(s.value.func.value, L.id) and len(s.value.args) == 2:
-            ins_idx, ins_val = s.value.args
-            # fused form: L.insert(D, L.pop(S))
-            if isinstance(ins_val, ast.Call) and isinstance(ins_val.func, ast.Attribute) and ins_val.func.attr == "pop" and is_name(ins_val.func.value, L.id) and ins_val.args:
-                popped = "<fused>"
-                pop_idx = ins_val.args[0]
-                ins_val = ast.Name(id="<fused>", ctx=ast.Load())
-                order.append("pop")
-            order.append("insert")
-    if order != ["init", "pop", "insert"] or shape_param not in inv.all_params or pop_idx is None:
-        raise AnalysisError(f"INVERSE-MIRROR {key}: shape bookkeeping of {inv.name} is no longer list(shape)/pop/insert ({order}); cannot decide")
+        if isinstance(s, ast.Assign) and len(s.targets) == 1 and isinstance(s.targets[0], ast.Name):
+            if is_pop(s.value):
+                env[s.targets[0].id] = do_pop(s.value, s)
+            else:
+                v = ev(s.value)
+                if v is not None:
+                    env[s.targets[0].id] = v
+                    where[s.targets[0].id] = s
+                else:
+                    env.pop(s.targets[0].id, None)
+        elif isinstance(s, ast.Expr) and isinstance(s.value, ast.Call) and isinstance(s.value.func, ast.Attribute) and isinstance(s.value.func.value, ast.Name) and s.value.func.value.id in env:
+            c = s.value
+            lst = c.func.value.id
+            if c.func.attr == "insert" and len(c.args) == 2:
+                ins_idx, ins_val = c.args
+                x = do_pop(ins_val, s) if is_pop(ins_val) else ev(ins_val)
+                st = env.get(lst)
+                if st and st[0] == "minus" and x and x[0] == "dim" and x[1] == st[1] and _canon(x[2]) == _canon(st[2]):
+                    env[lst] = ("moved", st[1], st[2], ins_idx, c)
+                elif st and st[0] == "minus":
+                    ctx.finding("INVERSE-MIRROR", inv, ins_idx, f"{inv.name} re-inserts `{src(ins_val)}`, which is not the size popped from the shape", construct=f"{lst}.insert({src(ins_idx)}, {src(ins_val)})")
+                    return
+                else:
+                    raise AnalysisError(f"INVERSE-MIRROR {key}: `{src(c)}` inserts into a list the rule does not follow; cannot decide")
+            elif c.func.attr in ("append", "extend", "remove", "reverse", "sort", "clear", "pop"):
+                raise AnalysisError(f"INVERSE-MIRROR {key}: `{src(c)}` edits the intermediate shape in a way the rule does not follow; cannot decide")
+    # the list handed to reshape: evaluated in the original (not inlined) return expression's terms
+    Lv = ev(L) if not isinstance(L, ast.Name) else env.get(L.id)
+    if Lv is None:
+        raw = irets[0].value
+        # the inlined expression may have replaced the list name by its definition: try the un-inlined names
+        for n in ast.walk(raw):
+            if isinstance(n, ast.Name) and n.id in env and env[n.id][0] == "moved":
+                Lv = env[n.id]
+    if Lv is None or Lv[0] != "moved":
+        raise AnalysisError(f"INVERSE-MIRROR {key}: shape bookkeeping of {inv.name} is not list(shape) with one size moved ({Lv[0] if Lv else 'unrecognised'}); cannot decide")
+    _, shape_param, pop_idx, ins_idx, node = Lv
+    if shape_param not in inv.all_params:
+        raise AnalysisError(f"INVERSE-MIRROR {key}: the intermediate shape of {inv.name} is not built from a parameter; cannot decide")
+    lname = L.id if isinstance(L, ast.Name) else "shape"
     if _canon(pop_idx) != _canon(S):
-        ctx.finding("INVERSE-MIRROR", inv, pop_idx, f"{inv.name} pops axis {src(pop_idx)} from the target shape but {fwd.name} moved axis {src(S)}: the intermediate shape does not match the unfolding", construct=f"{L.id}.pop({src(pop_idx)})")
-    if _canon(ins_idx) != _canon(D) or not is_name(ins_val, popped):
-        ctx.finding("INVERSE-MIRROR", inv, ins_idx, f"{inv.name} re-inserts at {src(ins_idx)} but {fwd.name} moved the axis to {src(D)} (or inserts something other than the popped size)", construct=f"{L.id}.insert({src(ins_idx)}, {src(ins_val)})")
+        ctx.finding("INVERSE-MIRROR", inv, pop_idx, f"{inv.name} pops axis {src(pop_idx)} from the target shape but {fwd.name} moved axis {src(S)}: the intermediate shape does not match the unfolding", construct=f"{lname}.pop({src(pop_idx)})")
+    if _canon(ins_idx) != _canon(D):
+        ctx.finding("INVERSE-MIRROR", inv, node, f"{inv.name} re-inserts at {src(ins_idx)} but {fwd.name} moved the axis to {src(D)}", construct=f"{lname}.insert({src(ins_idx)}, <popped size>)")
 
 
 def forward(ctx: Ctx, wrapper, target, fixed):
